@@ -49,9 +49,12 @@ def _validate(ck, prog):
         raise Undecided("validateSequence: expected one loop", f.loc())
     loop = loops[0]
     param = f.params()[1]
-    if not (isinstance(loop.iter, ast.Name) and loop.iter.id == param):
-        ck.ob("PART-filter", construct, False, expected="loop over every character of the argument", found=unparse(loop.iter),
-              slot="domain", where=f.loc(loop))
+    it = loop.iter
+    if isinstance(it, ast.Call) and getattr(it.func, "id", None) == "enumerate" and it.args:
+        it = it.args[0]
+    ck.shape(isinstance(it, ast.Name), "validateSequence: loop over a string variable", f.loc(loop))
+    ck.ob("PART-filter", construct, it.id == param, expected="loop over every character of the argument", found=unparse(loop.iter), slot="domain", where=f.loc(loop))
+    if it.id != param:
         return
     ev = Evaluator(prog)
     ev.universe = UNIVERSE
